@@ -61,7 +61,7 @@ func VerifH_error_body_ctype() {
 	vfCheck(registered, "the error body is labelled with a type no registered codec produces")
 	vfCheck(len(w.body) > 0, "the error response has no body")
 	if len(ct) == 1 && ct[0] == "application/x" {
-		vfCheck(len(rec.statuses) == 1 && codes.Code(rec.statuses[0].Code) == code && rec.statuses[0].Message == "m", "google.rpc.Status body does not carry the handler's code and message")
+		vfCheck(len(rec.statuses) >= 1 && codes.Code(rec.statuses[len(rec.statuses)-1].Code) == code && rec.statuses[len(rec.statuses)-1].Message == "m", "google.rpc.Status body does not carry the handler's code and message")
 	}
 	vfCover("handler-failed")
 }
